@@ -34,12 +34,14 @@ def main():
     ap.add_argument('--src', help='directory with change<n>.diff / demo<n>.py / notes<n>.md (default /tmp/seed_out_<prop>)')
     ap.add_argument('--title', default='')
     ap.add_argument('--needs', default='')
+    ap.add_argument('--prefix', default='S', help='id prefix (S: round 1, S2: round 2 written with a generic description of a randomized tester)')
+    ap.add_argument('--note', default='')
     args = ap.parse_args()
     src = args.src or '/tmp/seed_out_%s' % args.prop
     patch = os.path.join(src, 'change%s.diff' % args.n)
     demo = os.path.join(src, 'demo%s.py' % args.n)
     notes = os.path.join(src, 'notes%s.md' % args.n)
-    sid = 'S-%s-%s' % (args.prop, args.n)
+    sid = '%s-%s-%s' % (args.prefix, args.prop, args.n)
     wt = '/tmp/seed_validate_%s' % sid
     subprocess.call(['git', '-C', '/repo', 'worktree', 'remove', '--force', wt], stderr=subprocess.DEVNULL)
     subprocess.check_call(['git', '-C', '/repo', 'worktree', 'add', '-q', '--detach', wt, 'HEAD'])
@@ -89,7 +91,7 @@ def main():
             'property': args.prop,
             'title': args.title,
             'needs_to_manifest': args.needs,
-            'written_by': 'independent sub-agent given only the property text and a scratch worktree',
+            'written_by': args.note or 'independent sub-agent given only the property text and a scratch worktree',
             'validated': ran,
             'detected_by_quick_check': bool(caught),
             'detection': how,
